@@ -96,6 +96,7 @@ func (a *SimApp) page(method string, r *http.Request) (vocab.ActivityStreamsOrde
 		a.ev(method, iri, nil, "missing", false)
 		return nil, errMissing
 	}
+	b = a.s.corruptStored(a.srv.DB, "app."+method, iri, b)
 	t, err := decodeType(b)
 	if err != nil {
 		return nil, err
